@@ -73,6 +73,18 @@ CHECKS = {
             'Disjointness of the bands of one multiband element is data and not decided.',
             'value graph + CFG dominance (filter once) + structural field/loop mapping checks',
             'DESIGN.md 4 C07'),
+    'C08': ('other',
+            'Structural obligations of auto-design: each removed edge is re-linked through the one new amplifier on the '
+            'same paths (values from the evaluator\'s call records), split_fiber chains prev -> spans -> next; every '
+            'add_edge weight is (source length if the source is a fibre else 0.01) for the source of that very edge; '
+            'definite assignment of the designed operating point on every non-raising exit of set_one_amplifier; '
+            'connector defaults and the exact padding formula; every return of calculate_new_length keeps L*n = length and '
+            'the longer candidate is guarded by the maximum span length; order and coverage of the passes; every ROADM and '
+            'transceiver OMS is designed with a dispatch on all amplifier kinds.',
+            'Uniqueness of generated names over the whole network, reachability and padding over arbitrary fused chains '
+            'are topology-dependent and not decided.',
+            'value graph call records (graph surgery typestate) + definite-assignment over all exits + CFG ordering',
+            'DESIGN.md 4 C08'),
     'C09': ('other',
             'Gated value graphs of compute_gain_power_and_tilt_target (all 16 mode/offset/VOA arms), target_power, '
             'set_one_amplifier (state before and after the VOA step, per arm) and set_amplifier_voa compared with the '
